@@ -99,6 +99,12 @@ let () =
   reg "unpack_ints" (function sg :: n :: rest -> let (bs, ps) = take (int_of_z n) rest in (match ps with [p] -> List.map2 (fun bb v -> umod bb v) bs (unpack_ints (b sg) bs p) | _ -> failwith "arity") | _ -> failwith "arity");
   reg "packF2x11_1x10" (function [x; y; z] -> [packF2x11_1x10 x y z] | _ -> failwith "arity");
   reg "unpackF2x11_1x10" (function [v] -> unpackF2x11_1x10 v | _ -> failwith "arity")
+  ;
+  (* C11: roundEven mb w pattern = integer result as a 64-bit pattern;  iround / uround pattern (binary32) *)
+  let w64 = z_of_u64 64L in
+  reg "roundEven" (function [mb; w; p] -> let (n, d) = ratio_of_bits mb w p in [umod w64 (roundEven n d)] | _ -> failwith "arity");
+  reg "iround" (function [mb; w; p] -> [umod w64 (iround mb w p)] | _ -> failwith "arity")
+
 
 
 
